@@ -227,6 +227,12 @@ def gen_tree(rng, cfg=None):
     # file entries
     need = []
     for vp, real in view_files:
+        if hidden(vp) and not is_ignored(vp) and vp not in manifests and vp != top and \
+                rng.random() < cfg.get('p_listed_hidden', 0.0):
+            # a Manifest written by another tool lists a dotfile or a file inside a dot-directory: the walk never
+            # visits it, the entry is still verified
+            need.append(vp)
+            continue
         if hidden(vp) or is_ignored(vp) or vp in manifests:
             continue
         if vp == top:
